@@ -33,6 +33,8 @@ func init() {
 			{ID: "C07.11", Desc: "the background revalidation reads its copy of the entry after the origin answered (an invalidation in between is not undone)", Run: func(c *Ctx) { ruleBackgroundReadsAfterOrigin(c, "C07.11") }, MinSites: 1},
 			{ID: "C07.12", Desc: "invalidation of a Location / Content-Location target deletes the entries its list names on every path", Run: func(c *Ctx) { ruleIndexDeleteAfterEntries(c, "C07.12") }, MinSites: 1},
 			{ID: "C07.13", Desc: "invalidation visits every reference of the list (any variant)", Run: func(c *Ctx) { ruleRefEnumeratorVisitsAll(c, "C07.13") }, MinSites: 1},
+			{ID: "C07.14", Desc: "a key that is already gone does not stop the invalidation (not-exist is recognised through errors.Is)", Run: func(c *Ctx) { ruleSentinelsByErrorsIs(c, "C07.14") }, MinSites: 1},
+			{ID: "C07.15", Desc: "relative Location / Content-Location references are resolved (parsed as URI references)", Run: func(c *Ctx) { ruleLocationParsedAsReference(c, "C07.15") }, MinSites: 1},
 		},
 	})
 }
